@@ -202,8 +202,12 @@ class Session:
 
     # ---- the pool ----
     def observe(self, obj):
+        saved = self.desc
+        self.desc = "str() of a %s (re-inspection after %s)" % (type(obj).__name__, saved)
         s = self.guarded(lambda: str(obj))
+        self.desc = "hash() of a %s (re-inspection after %s)" % (type(obj).__name__, saved)
         h = self.guarded(lambda: hash(obj))
+        self.desc = saved
         return (s, h)
 
     def admit(self, obj):
@@ -307,7 +311,7 @@ def initial_values(rng, mode="G"):
        hour_of_day=24)
     tp(year=y(), day_of_year=rng.choice([1, 59, 60, 360 if d360 else 365]), hour_of_day=rng.randint(0, 23),
        minute_of_hour=rng.randint(0, 59))
-    tp(year=y(), week_of_year=rng.randint(1, 52), day_of_week=rng.randint(1, 7), hour_of_day=rng.randint(0, 23))
+    tp(year=y(), week_of_year=rng.randint(1, 51), day_of_week=rng.randint(1, 7), hour_of_day=rng.randint(0, 23))
     tp(year=y(), month_of_year=rng.randint(1, 12), day_of_month=rng.randint(1, 28), hour_of_day=rng.randint(0, 23),
        hour_of_day_decimal=rng.choice([0.5, 0.25, 0.75]))
     tp(year=y(), month_of_year=rng.randint(1, 12), day_of_month=rng.randint(1, 28), hour_of_day=rng.randint(0, 23),
